@@ -334,7 +334,7 @@ TRANSPARENT = [
     re.compile(r'^std::io::Cursor::<T>::into_inner$'),
     re.compile(r'^std::io::Cursor::<T>::get_ref$'),
     re.compile(r'^<.* as std::clone::Clone>::clone$'),
-    re.compile(r'^std::slice::<impl \[T\]>::to_vec$'),
+    re.compile(r'^(std|core|alloc)::slice::<impl \[T\]>::to_vec$'),
     re.compile(r'^<.* as std::borrow::ToOwned>::to_owned$'),
     re.compile(r'^<.* as std::convert::AsRef<.*>>::as_ref$'),
     re.compile(r'^std::option::Option::<T>::as_ref$'),
@@ -347,9 +347,9 @@ TRANSPARENT = [
     re.compile(r'^<.* as std::convert::From<.*>>::from$'),
     re.compile(r'^<.* as std::convert::Into<.*>>::into$'),
     re.compile(r'^std::string::String::as_bytes$'),
-    re.compile(r'^std::str::<impl str>::as_bytes$'),
+    re.compile(r'^(std|core)::str::<impl str>::as_bytes$'),
     re.compile(r'^<.* as std::iter::IntoIterator>::into_iter$'),
-    re.compile(r'^std::slice::<impl \[T\]>::iter$'),
+    re.compile(r'^(std|core)::slice::<impl \[T\]>::iter$'),
     # repo-specific pure getter (a match returning the wrapped integer; verified call-free in c18 R18.1)
     re.compile(r'^model::data::Value::<Type>::inner$'),
 ]
